@@ -249,8 +249,11 @@ class NotApplicable(Exception):
 class Gen:
     def __init__(self, rng, ntables=3, max_tr=6, nlets=None, kinds=None, declared=True, shared_k=True,
                  append_inline=False, open_take=True, dup_names=True, forced=None, literal=False, functions=False, simple_sort=False,
-                 shapes=False, force_shape=None):
+                 shapes=False, force_shape=None, key_join=False):
         self.rng = rng
+        # key_join: joins equate the unique key columns of both sides (inner / left), so that every left row has at most one
+        # partner and the order of the left input stays determinate through the join
+        self.key_join = key_join
         self.forced = forced
         self.simple_sort = simple_sort
         self.functions = functions
@@ -850,6 +853,13 @@ class Gen:
         if not li or not ri:
             return None
         a, b = rng.choice(li), rng.choice(ri)
+        if self.key_join and not all_eq:
+            lk = [i for i, c in enumerate(frame) if c.key and c.ty == INT]
+            rk = [i for i, c in enumerate(rframe) if c.key and c.ty == INT]
+            if not lk or not rk:
+                return None
+            a, b = lk[0], rk[0]
+            side = rng.choice(["inner", "left", "left"])
         # `this`/`that` are not needed: references are unambiguous by construction
         cond_t = f"{lframe[a].ref} == {rframe2[b].ref}"
         cond_s = f"( eq ( col {a} ) ( col {len(lframe) + b} ) )"
@@ -863,6 +873,8 @@ class Gen:
                 side = "inner"
             if getattr(self, "force_side", None):
                 side = self.force_side
+        elif self.key_join:
+            pass
         elif lframe[a].name == rframe2[b].name and rng.random() < 0.5 and \
                 sum(1 for c in lframe if c.name == lframe[a].name) == 1 and sum(1 for c in rframe2 if c.name == lframe[a].name) == 1:
             cond_t = f"=={lframe[a].name}"
@@ -1207,6 +1219,42 @@ def systematic_cases(maxlen, profile, seed=7, sample=None, kinds=ALL_KINDS, vari
                 except NotApplicable:
                     continue
     return out
+
+
+def sequence_cases(seqs, profile, seed=7, variants=1, maxrows=6):
+    """`variants` programs for each of the given sequences of transform kinds (seed-independent)"""
+    import zlib
+    out = []
+    for seq in seqs:
+        seq = tuple(seq)
+        for v in range(variants):
+            rng = random.Random(zlib.crc32(repr((seed, v) + seq).encode()))
+            for attempt in range(4):
+                try:
+                    g = Gen(rng, forced=list(seq), nlets=0, **profile)
+                    ExprGen.functions = g.functions
+                    c = g.program()
+                    ExprGen.functions = False
+                    c.db = gen_db(rng, g.schema, maxrows=maxrows, empty_p=0.0)
+                    c.seq = seq
+                    out.append(c)
+                    break
+                except NotApplicable:
+                    ExprGen.functions = False
+                    continue
+    return out
+
+
+def carried_order_join_cases(profile, seed=37, variants=3):
+    """an order established by a sort, carried through a join that keeps every left row determinate (key join), optionally
+    through select / derive / filter, and then needed by a take whose result is consumed by a further transform
+    (group / aggregate / ..): the take must still select by the positions of that order"""
+    seqs = []
+    for first in [("sort", "join"), ("sort", "derive", "join"), ("sort", "join", "join")]:
+        for mid in [(), ("select",), ("derive",), ("filter",)]:
+            for tail in [("group_agg",), ("aggregate",), ("group_take",), ("derive",), ("filter",), ("select",), ("group_agg", "sort"), ("take",), ()]:
+                seqs.append(first + mid + ("take",) + tail)
+    return sequence_cases(seqs, dict(profile, key_join=True), seed=seed, variants=variants, maxrows=7)
 
 
 def make_case(rng, **kw):
